@@ -388,4 +388,85 @@ def Heap.deref (h : Heap α) (p : Nat) : Option (Pose α) :=
 
 end Heap
 
+/-! ## Several `align` calls in flight
+
+`least_squares` is an interactive routine: it repeatedly asks for the residual at a point of its choosing and finally answers.
+An `Optimiser` is any such strategy (its state type, how it starts from `x0`, which point it wants next or that it is done,
+how it digests a residual — or the exception the residual raised —, and its answer).  `runFrom` is the sequential run with an
+evaluation budget (`max_nfev`); `Optimiser.lsq` turns it into the `Lsq` parameter of `findTransformation`.
+
+A `Flight` is one `align` call somewhere inside its optimisation: its OWN arguments (as the code passes them:
+`least_squares(cls._calc_residual, x0, ..., args=(origin, x_axis, xy_plane))`, no class or module state — Gen pins) and the
+optimiser state.  A `World` is a value of arbitrary shared state (class attributes, module globals: whatever there may be)
+plus the calls in flight; a schedule picks which call performs its next residual evaluation.  The code's step neither reads
+nor writes the shared component. -/
+section Flights
+variable {α : Type} [Add α] [Sub α] [Mul α] [Div α] [Neg α] [OfNat α 0] [OfNat α 1] [LT α] [DecidableLT α]
+  [HasSqrt α] [HasTrig α]
+
+structure Optimiser (α : Type) where
+  S : Type
+  init : List α → S
+  next : S → Option (List α)
+  feed : S → Except PyErr (List α) → S
+  answer : S → List α
+
+/-- sequential run: at most `fuel` residual evaluations, then the answer -/
+def Optimiser.runFrom (o : Optimiser α) (f : List α → Except PyErr (List α)) : Nat → o.S → List α
+  | 0, s => o.answer s
+  | n + 1, s =>
+    match o.next s with
+    | none => o.answer s
+    | some q => o.runFrom f n (o.feed s (f q))
+
+/-- the optimiser as the `lsq` parameter of `findTransformation` -/
+def Optimiser.lsq (o : Optimiser α) (fuel : Nat) : Lsq α := fun f x0 => o.runFrom f fuel (o.init x0)
+
+structure Flight (α : Type) (o : Optimiser α) where
+  origin : Vec3 α
+  xAxis : List (Vec3 α)
+  xyPlane : List (Vec3 α)
+  bsPoses : List (Nat × Pose α)
+  s : o.S
+  fuel : Nat
+
+/-- a call that has just entered `least_squares` -/
+def Flight.start (o : Optimiser α) (fuel : Nat) (origin : Vec3 α) (xAxis xyPlane : List (Vec3 α))
+    (bsPoses : List (Nat × Pose α)) : Flight α o :=
+  ⟨origin, xAxis, xyPlane, bsPoses, o.init (List.replicate Gen.C16.nParams 0), fuel⟩
+
+/-- one residual evaluation of this call — with ITS OWN reference points; nothing happens once the optimiser is done -/
+def Flight.step {o : Optimiser α} (fl : Flight α o) : Flight α o :=
+  match fl.fuel, o.next fl.s with
+  | n + 1, some q => { fl with s := o.feed fl.s (calcResidual q fl.origin fl.xAxis fl.xyPlane), fuel := n }
+  | _, _ => fl
+
+def Flight.done {o : Optimiser α} (fl : Flight α o) : Bool :=
+  match fl.fuel, o.next fl.s with
+  | _ + 1, some _ => false
+  | _, _ => true
+
+/-- what the call returns once its optimiser is done: `_Pose_from_params(result.x)`, de-flip, transform the base stations -/
+def Flight.result {o : Optimiser α} (fl : Flight α o) : Except PyErr (List (Nat × Pose α) × Pose α) := do
+  let raw ← poseFromParams (o.answer fl.s)
+  alignWith raw fl.xAxis fl.bsPoses
+
+structure World (α : Type) (o : Optimiser α) (G : Type) where
+  shared : G
+  flights : List (Flight α o)
+
+def modifyAt {β : Type} (f : β → β) : Nat → List β → List β
+  | _, [] => []
+  | 0, b :: bs => f b :: bs
+  | i + 1, b :: bs => b :: modifyAt f i bs
+
+/-- the scheduler lets call `i` perform its next step; the shared state is neither read nor written -/
+def World.step {o : Optimiser α} {G : Type} (w : World α o G) (i : Nat) : World α o G :=
+  { w with flights := modifyAt Flight.step i w.flights }
+
+def World.run {o : Optimiser α} {G : Type} (w : World α o G) (schedule : List Nat) : World α o G :=
+  schedule.foldl World.step w
+
+end Flights
+
 end CfVerif.C16
